@@ -42,7 +42,10 @@ class ShortLinkControl(BitsInterface):
             )
             self.crc_ok: bool = True
         else:
-            self.crc_ok: bool = CRC8.check(self.as_bits()[:28], ba2int(self.crc_8bit))
+            # crc bits are kept in the order they are transmitted (least significant bit first)
+            self.crc_ok: bool = CRC8.check(
+                self.as_bits()[:28], ba2int(bitarray(self.crc_8bit.tolist()[::-1]))
+            )
 
     def __repr__(self) -> str:
         descr: str = f"[{self.slco}]"
